@@ -79,7 +79,9 @@ func (vc *VC) execBuiltin(fr *Frame, call *ssa.CallCommon, b *ssa.Builtin, st *S
 		case *types.Array:
 			return Val{T: rt, L: []string{bvLit(64, uint64(t.Len()))}}
 		case *types.Map:
-			return Val{T: rt, L: []string{vc.mapLen(st, v, t)}}
+			n := vc.mapLen(st, v, t)
+			vc.assume(st.cond, and(app("bvsle", bvLit(64, 0), n), app("bvslt", n, bvLit(64, 1<<40))))
+			return Val{T: rt, L: []string{n}}
 		case *types.Pointer:
 			return Val{T: rt, L: []string{bvLit(64, uint64(t.Elem().Underlying().(*types.Array).Len()))}}
 		}
@@ -849,6 +851,13 @@ func (vc *VC) localEnv(fr *Frame, li *loopInfo, st *State, phiVals map[*ssa.Phi]
 	}
 	for i := c.NIn + c.NRes; i < len(c.Params); i++ {
 		name := c.Params[i].Name()
+		if name == "rangecount" {
+			// pseudo local of a map-range loop: the number of entries delivered so far
+			if t, ok := vc.iterPos(st, li); ok {
+				e.vars[c.Params[i]] = Val{T: c.Params[i].Type(), L: []string{t}}
+				continue
+			}
+		}
 		v, ok := vc.lookupLocal(fr, li, name, phiVals)
 		if !ok {
 			// not in scope for this loop: leave unbound (error if used)
@@ -978,6 +987,11 @@ func (vc *VC) loopModified(fr *Frame, li *loopInfo, st *State) ([]locTarget, boo
 					names, sorts := vc.mapHeaps(st, mt)
 					for i := range names {
 						ts = append(ts, locTarget{name: names[i], sort: sorts[i], whole: true})
+					}
+				case *ssa.Next:
+					if !x.IsString {
+						hn, hs := iterposHeap(vc)
+						ts = append(ts, locTarget{name: hn, sort: hs, whole: true})
 					}
 				case *ssa.Alloc, *ssa.MakeSlice, *ssa.MakeMap, *ssa.MakeInterface:
 					allocs = true
